@@ -5,6 +5,7 @@ pub mod c03;
 pub mod c04;
 pub mod c05;
 pub mod c06;
+pub mod c07;
 pub mod renderutil;
 pub mod c11;
 pub mod c13;
@@ -12,6 +13,7 @@ pub mod c15;
 pub mod c16;
 pub mod c17;
 pub mod c18;
+pub mod c19;
 pub mod c20;
 pub mod evalutil;
 
@@ -23,12 +25,14 @@ pub fn lookup(id: &str) -> Option<&'static dyn Prop> {
         "C04" => &c04::C04,
         "C05" => &c05::C05,
         "C06" => &c06::C06,
+        "C07" => &c07::C07,
         "C11" => &c11::C11,
         "C13" => &c13::C13,
         "C15" => &c15::C15,
         "C16" => &c16::C16,
         "C17" => &c17::C17,
         "C18" => &c18::C18,
+        "C19" => &c19::C19,
         "C20" => &c20::C20,
         _ => return None,
     })
